@@ -4,7 +4,8 @@ import k9
 
 CLAIMS = ("R1 the row-by-row IN-subquery evaluator can yield UNKNOWN: some element it pushes to its Option<bool> result is None (a two-valued evaluator cannot implement `x NOT IN (.. NULL ..)`); "
           "R2 the NOT IN decorrelation does not build a bare Anti join (equality keys, filter None) without consulting nullability of the probe expression / subquery column, adding an IS NULL guard, or declining (Ok(None)); "
-          "R3 (= C07.R2) uncorrelated subquery plans are drained over all their partitions.")
+          "R3 (= C07.R2) uncorrelated subquery plans are drained over all their partitions; "
+          "R4 a subquery that fails at run time fails the statement: in physical/operators/subquery.rs every Result of the engine's fallible layer (plan execution, scalar/EXISTS/IN evaluation, substitution) is propagated - none is turned into NULL / false / an empty set.")
 NOT_DECIDED = "row-by-row vs decorrelated equality in general; EXISTS/scalar subquery values."
 
 SQ = "physical::operators::subquery"
@@ -59,3 +60,19 @@ def run(F, R):
     drains = any(c.name.endswith("collect_input_partitions_concurrently") for c in F.fam_calls(rs.path))
     R.rule("C23.R3", "= C07.R2", "subquery plans are drained over every partition")
     R.check(drains, "C23.R3", "run_subquery_blocking:drains-all-partitions", "an uncorrelated subquery's plan is driven for partition 0 only", rs.loc(), dict())
+    # ---- R4
+    import kerr
+    R.rule("C23.R4", "K-ERR", "no swallowed error in subquery evaluation")
+    n4 = 0
+    for g in F.in_file("src/physical/operators/subquery.rs"):
+        if F.bodies[g.path]["kind"] not in ("fn", "method", "closure", "coroutine"):
+            continue
+        for c, tags, ok in kerr.audit(F, g):
+            n4 += 1
+            root = F.bodies[g.path].get("root") or g.path
+            key = f"{root.rsplit('::', 1)[-1]}:{c.name.rsplit('::', 1)[-1]}"
+            if ok:
+                R.ok("C23.R4", key + f"#{n4}", dict(consumers=sorted(tags)), g.loc(c.bb), nontrivial=False)
+            else:
+                R.bad("C23.R4", key, f"the error of {c.name.rsplit('::', 1)[-1]}() is swallowed ({sorted(tags)}): a subquery that fails for some outer row (e.g. a scalar subquery returning two rows) silently contributes NULL / false instead of failing the statement", g.loc(c.bb), dict(consumers=sorted(tags)))
+    R.floor("C23.R4", "fallible calls audited in subquery.rs", n4, 25)
